@@ -38,6 +38,15 @@ def targets():
     return _T
 
 
+def _sample_grid(grid, lim, rng):
+    """a random sample of the grid that always keeps the inputs a case marks with "keep" (hand-placed
+    boundary inputs)"""
+    keep = [g for g in grid if isinstance(g, dict) and g.get("keep")]
+    rest = [g for g in grid if not (isinstance(g, dict) and g.get("keep"))]
+    k = max(0, lim - len(keep))
+    return keep + (rng.sample(rest, k) if len(rest) > k else rest)
+
+
 def load_known():
     if not os.path.exists(KNOWN):
         return []
@@ -98,7 +107,7 @@ def run_unit(args):
         if getattr(case, "grid_limit", None):
             lim = min(lim, case.grid_limit if tier == "quick" else case.grid_limit * 10)
         if len(grid) > lim:
-            grid = rng.sample(grid, lim)
+            grid = _sample_grid(grid, lim, rng)
         cf = {"cases": 0, "outside": 0, "mismatches": [], "unsupported": 0}
         st = {"cases": 0, "violations": []}
         undecided = [o for o in out["obligations"] if o["status"] == "undecided"]
@@ -117,7 +126,20 @@ def run_unit(args):
                 else:
                     cf["cases"] += 1
                     if r is not None and len(cf["mismatches"]) < 5:
-                        cf["mismatches"].append({"values": contract.jsonable(values), "what": r})
+                        # model and real code disagree on this input: if the REAL run violates a clause of
+                        # this property (outside the known-finding regions) the disagreement is a violation
+                        # with a concrete input (e.g. a broken callee that the case only knows by contract);
+                        # otherwise it is a defect of the model (checker error)
+                        mm = {"values": contract.jsonable(values), "what": r, "violated": []}
+                        excluded_regions = {r_ for rs in exclude.values() if isinstance(rs, list) for r_ in rs}
+                        if not (excluded_regions & set(case.concrete_regions(values))):
+                            try:
+                                bad, what = replay.replay(case, values)
+                                mm["violated"] = [b for b in (bad or []) if prop in case.props_of(_base(b))]
+                                mm["real"] = what
+                            except Exception as e:  # noqa: BLE001
+                                mm["real"] = "replay failed: %r" % (e,)
+                        cf["mismatches"].append(mm)
             # the same grid is the bounded stand-in for undecided obligations of this case
             if undecided:
                 excluded_regions = {r_ for rs in exclude.values() if isinstance(rs, list) for r_ in rs}
@@ -271,6 +293,12 @@ def check_property(prop, tier="quick", seed=0):
         if cf:
             conf_cases += cf["cases"]
             for mm in cf["mismatches"]:
+                if mm.get("violated"):
+                    path = write_replay(prop, case, r["case"] + ":conformance." + "+".join(mm["violated"]), mm["values"], {"real_code": mm.get("real", ""), "confirmed": True, "found_by": "conformance run (real code on the case's grid): " + mm["what"][:200]})
+                    lines.append("VIOLATION property=%s replay=%s" % (prop, path))
+                    lines.append("  conformance run %s: real code violates %s on %s" % (r["case"], mm["violated"], mm["values"]))
+                    violations += 1
+                    continue
                 checker_errors.append("conformance mismatch (model vs numpy) in %s on %s: %s" % (r["case"], mm["values"], mm["what"]))
         for o in r["obligations"]:
             all_obs.append(o)
@@ -292,7 +320,7 @@ def check_property(prop, tier="quick", seed=0):
 
                     grid = list(case.grid(tier, _r.Random(seed)))
                     if len(grid) > 3000:
-                        grid = _r.Random(seed).sample(grid, 3000)
+                        grid = _sample_grid(grid, 3000, _r.Random(seed))
                     for gv in grid:
                         try:
                             gbad, gwhat = replay.replay(case, gv)
@@ -378,7 +406,11 @@ def check_property(prop, tier="quick", seed=0):
     os.makedirs(EVIDENCE_DIR, exist_ok=True)
     json.dump(ev, open(os.path.join(EVIDENCE_DIR, prop + ".json"), "w"), indent=1)
 
+    seen_lines = set()
     for ln in lines:
+        if ln.startswith("VIOLATION ") and ln in seen_lines:
+            continue  # several inputs of one obligation share one replay file: one line
+        seen_lines.add(ln)
         print(ln)
     print("%s %s: %d obligations, %d discharged, %d undecided, %d refuted; %d conformance cases; %.1fs" % (prop, tier, n_ob, n_dis, len(undecided), violations, conf_cases, wall))
     for o in undecided:
